@@ -482,7 +482,7 @@ Section Reenc.
       destruct (dusize_len (length l) (a ++ rest) ltac:(lia) Hok) as [Hp Hdu].
       split; [apply bytes_ok_app; split; assumption|]. exists (JArr l'). split.
       + unfold DE. cbn [dyn_de]. rewrite de_no_panic_arm. fold DE. rewrite <- app_assoc, Hdu. cbn [dbind].
-        rewrite Hde; [reflexivity|]. rewrite <- (Nat2N.id (length l)) at 1. apply loop_fuel_enough. exact Hlen.
+        rewrite Hde; [reflexivity|]. rewrite <- (Nat2N.id (length l)) at 1. apply loop_fuel_enough. left. exact Hlen.
       + unfold SER. cbn [dyn_ser]. rewrite ser_no_panic_arm. fold SER. rewrite Hse, Hl'. reflexivity.
     - cbn [schema_wf reenc_scope] in Hwf, Hsc.
       assert (Hts : Forall reenc_at ts).
@@ -508,7 +508,7 @@ Section Reenc.
       { rewrite fold_insert_asc; [reflexivity|rewrite Hk; exact Hasc|intros e x []]. }
       split; [apply bytes_ok_app; split; assumption|]. exists (JObj obj'). split.
       + unfold DE. cbn [dyn_de]. rewrite de_no_panic_arm. fold DE. rewrite <- app_assoc, Hdu. cbn [dbind].
-        rewrite Hde; [rewrite Hfold; reflexivity|]. rewrite <- (Nat2N.id (length obj)) at 1. apply loop_fuel_enough. exact Hlen.
+        rewrite Hde; [rewrite Hfold; reflexivity|]. rewrite <- (Nat2N.id (length obj)) at 1. apply loop_fuel_enough. left. exact Hlen.
       + unfold SER. cbn [dyn_ser]. rewrite ser_no_panic_arm. fold SER. rewrite Hse. cbn [dbind].
         rewrite <- (map_length fst obj'), Hk, map_length. reflexivity.
     - cbn [schema_wf reenc_scope] in Hwf, Hsc. apply andb_prop in Hwf as [_ Hwf]. unfold body_ok in Hsc. apply andb_prop in Hsc as [Hsc Hd].
